@@ -168,3 +168,132 @@ def bad_history(rng, kind, ncalls=20, small=False, **over):
             b.update(s)
             out.append(b)
     return out
+
+
+def rt_history(rng, kind, ncalls=30, small=False):
+    """Every operation that must be real-time safe, at every kind of history point (C09)."""
+    ops = valid_history(rng, kind, ncalls, small, allow=("ratio", "ramp", "chunk", "reset"))
+    out = [ops[0]]
+    ch = ops[0]["ch"]
+    for op in ops[1:]:
+        if op["op"] == "process":
+            op = dict(op)
+            op["via"] = rng.choice(["into", "slices", "vec_into"])
+        out.append(op)
+        u = rng.random()
+        if u < 0.15:
+            s = dict(rng.choice(BAD_SHAPES))
+            b = {"op": "bad", "id": 0, "via": rng.choice(["into", "slices", "vec_into"])}
+            b.update(s)
+            out.append(b)
+        elif u < 0.25:
+            out.append({"op": "set_ratio", "id": 0, "x": {"cls": rng.choice(["above", "below", "nan", "zero"])},
+                        "ramp": rng.random() < 0.5, "rel": rng.random() < 0.5})
+        elif u < 0.32:
+            out.append({"op": "set_chunk", "id": 0, "n": rng.choice([0, 1, 10 ** 6])})
+        elif u < 0.4:
+            out.append({"op": "getters", "id": 0})
+    return out
+
+
+CLASSES = ["lo", "hi", "lo_pred", "lo_succ", "hi_pred", "hi_succ", "below", "above", "nan", "inf", "ninf",
+           "zero", "nzero", "neg", "sub", "one", "in", "in", "in"]
+
+
+def setter_history(rng, kind, ncalls=30):
+    """Argument classes of the setters x history points (C12); original/max drawn from wide sets."""
+    over = {}
+    if kind in ASYNC:
+        if rng.random() < 0.6:
+            # arbitrary doubles: the exact bounds original*max, original/max are not "nice" numbers
+            over["r"] = {"bits": bits(rng.uniform(0.05, 12.0))}
+            over["maxrel"] = {"bits": bits(rng.choice([1.0, rng.uniform(1.0, 1.2), rng.uniform(1.0, 16.0), 10.0, 3.0]))}
+        over["chunk"] = rng.choice([4, 16, 64, 100])
+    n = new_op(rng, kind, **over)
+    n["T"] = rng.choice([32, 64])
+    ops = [n]
+    for _ in range(ncalls):
+        u = rng.random()
+        if u < 0.55:
+            cls = rng.choice(CLASSES)
+            x = {"cls": cls}
+            if cls == "in":
+                x["u"] = rng.randrange(0, 65)
+            ops.append({"op": "set_ratio", "id": 0, "x": x, "ramp": rng.random() < 0.5, "rel": rng.random() < 0.5})
+        elif u < 0.75:
+            cm = n["chunk"]
+            ops.append({"op": "set_chunk", "id": 0,
+                        "n": rng.choice([0, 1, cm, cm + 1, -1, max(1, cm // 2), rng.randrange(1, cm + 1), 2 * cm])})
+        elif u < 0.8:
+            ops.append({"op": "reset", "id": 0})
+        else:
+            ops.append({"op": "process", "id": 0})
+    return ops
+
+
+def ctor_table(rng):
+    """Constructor argument table (C13): invalid and valid arguments for every type."""
+    ops = []
+    bad_r = [{"p": 0, "q": 1}, {"p": -1, "q": 1}, {"bits": bits(-0.0)}, {"bits": bits(-1e-300)},
+             {"bits": bits(float("-inf"))}, {"p": -3, "q": 2}]
+    good_r = [{"p": 1, "q": 1}, {"p": 3, "q": 2}, {"bits": bits(1e-3)}, {"bits": bits(0.7)}]
+    bad_m = [{"p": 1, "q": 2}, {"p": 0, "q": 1}, {"p": -2, "q": 1}, {"bits": bits(0.9999999999999999)},
+             {"bits": bits(-0.0)}]
+    good_m = [{"p": 1, "q": 1}, {"p": 2, "q": 1}, {"bits": bits(1.0000000000000002)}]
+    for kind in ASYNC:
+        for _ in range(6):
+            r = rng.choice(bad_r + good_r)
+            m = rng.choice(bad_m + good_m)
+            op = {"op": "new", "id": 0, "kind": kind, "T": rng.choice([32, 64]), "ch": rng.choice([1, 2]),
+                  "r": r, "maxrel": m, "chunk": rng.choice([1, 8, 64]), "signal": "zero"}
+            if kind.startswith("Fast"):
+                op["degree"] = rng.choice(DEGREES)
+            else:
+                op.update({"L": rng.choice([8, 64]), "F": rng.choice([2, 16]), "interp": rng.choice(INTERPS)})
+            ops.append(op)
+    for kind in FFT:
+        for _ in range(5):
+            a = rng.choice([0, 0, 1, 2, 44100, 48000])
+            b = rng.choice([0, 1, 3, 44100, 8000])
+            ops.append({"op": "new", "id": 0, "kind": kind, "T": rng.choice([32, 64]), "ch": 1,
+                        "fs_in": a, "fs_out": b, "chunk": rng.choice([1, 16, 256]), "sub": rng.choice([1, 2]),
+                        "signal": "zero"})
+    return ops
+
+
+def impulse_history(rng, kind):
+    """Constant ratio, one impulse: where does it come out? (C14 for kernels without an instant probe)"""
+    from math import gcd
+    if kind in FFT:
+        a, b = rng.choice([(1, 2), (2, 1), (3, 2), (2, 3), (147, 160), (160, 147), (1, 1), (4, 1), (1, 4),
+                           (44100, 48000), (48000, 44100), (8000, 44100), (5, 7)])
+        n = new_op(rng, kind, fs_in=a, fs_out=b, signal="impulse", T=rng.choice([32, 64]), ch=1)
+        g = gcd(a, b)
+        ra, rb = a // g, b // g
+        n["chunk"] = rng.choice([64, 128, 256, 300, 512])
+        n["sub"] = rng.choice([1, 2])
+        blk = -(-(n["chunk"] // n["sub"]) // ra) * ra if kind != "FftFixedOut" else -(-(n["chunk"] // n["sub"]) // rb) * ra
+        pos = rng.randrange(blk // 2, 3 * blk)
+        n["imp"] = [pos]
+        total_in = pos + 4 * blk + 2 * n["chunk"] * ra // rb + 64
+        ops = [n]
+        # enough calls to push the impulse through
+        per = max(1, n["chunk"] if kind != "FftFixedOut" else n["chunk"] * ra // rb)
+        for _ in range(min(200, total_in // per + 3)):
+            ops.append({"op": "process", "id": 0})
+        return ops
+    r = rng.choice([Fraction(1), Fraction(2), Fraction(1, 2), Fraction(3, 2), Fraction(2, 3), Fraction(160, 147),
+                    Fraction(147, 160), Fraction(4), Fraction(1, 4)])
+    n = new_op(rng, kind, r=rj(r), maxrel=rj(Fraction(2)), signal="impulse", T=rng.choice([32, 64]), ch=1,
+               probe="dispatch")
+    n["L"] = rng.choice([32, 64, 128, 256])
+    n["F"] = rng.choice([16, 128, 256])
+    n["interp"] = rng.choice(["Cubic", "Linear", "Quadratic"])
+    n["chunk"] = rng.choice([128, 256, 512])
+    pos = rng.randrange(n["L"], n["L"] + 600)
+    n["imp"] = [pos]
+    ops = [n]
+    per_in = n["chunk"] if kind.endswith("In") else max(1, int(n["chunk"] / float(r)))
+    for _ in range(min(200, (pos + 3 * n["L"] + 200) // per_in + 3)):
+        ops.append({"op": "process", "id": 0})
+    return ops
